@@ -100,9 +100,14 @@ def lake_build(targets, ctx, timeout=5400):
     return rc, out
 
 
+class _Registry:
+    def __getitem__(self, prop):
+        with open(os.path.join(VERIF, "vlib", "registry", prop + ".json")) as fh:
+            return json.load(fh)
+
+
 def registry():
-    with open(os.path.join(VERIF, "vlib", "registry.json")) as fh:
-        return json.load(fh)
+    return _Registry()
 
 
 def grep_forbidden(modules):
